@@ -14,15 +14,27 @@ try:
     print('\n'.join(l for l in out.split('\n') if 'playback' in l.lower() or 'INFO' in l)[:3000])
     names=re.findall(r'- (kani_concrete_playback_\w+)', p.stdout)
     print('names',names)
-    src=open(os.path.join(ws,h['file'])).read()
+    fpath=os.path.join(ws,h['file'])
+    src=open(fpath).read()
+    # Kani writes one test per failed check / satisfied cover; identical witnesses get identical names
+    # (duplicate definitions -> the native test build fails, E0428): keep the first copy of each test
+    seen=set()
+    def dedupe(mm):
+        nm=re.search(r'fn (kani_concrete_playback_\w+)', mm.group(0)).group(1)
+        if nm in seen: return ''
+        seen.add(nm); return mm.group(0)
+    src=re.sub(r'#\[test\]\s*fn kani_concrete_playback_\w+\(\).*?\n\s*\}\n', dedupe, src, flags=re.S)
+    open(fpath,'w').write(src)
+    names=list(dict.fromkeys(names))
     for n in names:
         m=re.search(r'#\[test\]\s*fn '+n+r'\(\).*?\n\s*\}\n', src, re.S)
         p2=subprocess.run(['cargo','kani','playback','-Z','concrete-playback','-p',cfg['package'],'--',n],cwd=ws,env=env,capture_output=True,text=True)
         out=p2.stdout+p2.stderr
         failed='test result: FAILED' in out
         print('TEST', n, 'native FAILED' if failed else 'native passed')
+        print(m.group(0) if m else 'TEST NOT FOUND')
+        print(out[-700:] if not failed else '')
         if failed:
-            print(m.group(0) if m else 'TEST NOT FOUND')
             mm=re.search(r"(thread '[^']*' \(?\d*\)? ?panicked at [^\n]*\n[^\n]*)", out)
             print(mm.group(1) if mm else out[-1500:])
 finally:
